@@ -153,6 +153,10 @@ func (c *Ctx) VerifyFunc(pkgPath, key string) (rep *FuncReport) {
 		if i < len(con.Params) && con.Params[i] != "_" {
 			env[con.Params[i]] = v
 			pname = con.Params[i]
+			if fr.ParamAlias == nil {
+				fr.ParamAlias = map[string]string{}
+			}
+			fr.ParamAlias[pname] = p.Name()
 		}
 		c.registerInputs(pname, v, st)
 	}
@@ -219,6 +223,11 @@ func (c *Ctx) VerifyFunc(pkgPath, key string) (rep *FuncReport) {
 			bindResults(renv, con, fn, fn.Signature, res)
 		}
 		rn := fmt.Sprintf("ret%d", r.idx)
+		if con.Trusted {
+			// a trusted contract listed for verification: its postconditions and frame stay assumptions (they speak about
+			// an abstraction the body does not mention); only its at-call clauses are checked on the body
+			continue
+		}
 		if len(con.Ensures) > 0 {
 			c.cover(rn, r.st)
 		}
